@@ -508,7 +508,8 @@ func (s *State) evalBuiltin(node *ast.Builtin) object.Object {
 	}
 	var val object.Object
 	var rt object.Type
-	if minV > 0 {
+	// (print, log and error evaluate all their arguments themselves, in evalPrintLogError)
+	if minV > 0 && t != token.PRINT && t != token.LOG && t != token.ERROR {
 		val = s.evalInternal(node.Parameters[0])
 		rt = val.Type()
 		if rt == object.ERROR && t != token.LOG && t != token.CATCH { // log can log (and thus catch) errors.
